@@ -1,6 +1,7 @@
 package main
 
 import (
+	"strconv"
 	"math/rand"
 	"sort"
 	"encoding/json"
@@ -11,6 +12,7 @@ import (
 
 	"amverif/codec"
 	"amverif/core"
+	"amverif/helpers"
 )
 
 func main() {
@@ -23,10 +25,51 @@ func main() {
 		os.Exit(cmdCore(os.Args[2:]))
 	case "codec":
 		os.Exit(cmdCodec(os.Args[2:]))
+	case "helpers":
+		os.Exit(cmdHelpers(os.Args[2:]))
+	case "sweepchild":
+		seed, _ := strconv.ParseInt(os.Args[2], 10, 64)
+		samples, _ := strconv.Atoi(os.Args[3])
+		skip := ""
+		if len(os.Args) > 4 {
+			skip = os.Args[4]
+		}
+		helpers.SweepChild(seed, samples, skip)
+		os.Exit(0)
 	default:
 		fmt.Println("unknown command", os.Args[1])
 		os.Exit(2)
 	}
+}
+
+func cmdHelpers(args []string) int {
+	fs := flag.NewFlagSet("helpers", flag.ExitOnError)
+	fs.String("prop", "C20", "")
+	tier := fs.String("tier", "quick", "quick|thorough")
+	seed := fs.Int64("seed", 1, "PRNG seed")
+	driver := fs.String("driver", "/verif/lean/.lake/build/bin/amdriver", "model driver")
+	out := fs.String("out", "/verif/out", "")
+	result := fs.String("result", "", "")
+	fs.String("corpus", "", "")
+	fs.String("replay", "", "")
+	search := fs.Bool("search", false, "")
+	fs.Parse(args)
+	res := helpers.RunPipeline(*seed, *tier, *driver, *out, *search)
+	b, _ := json.MarshalIndent(res, "", " ")
+	if *result != "" {
+		os.WriteFile(*result, b, 0o644)
+	}
+	fmt.Printf("evaluations=%d disagreements=%d failures=%d wall=%.1fs extra=%v\n", res.Evaluations, len(res.Disagreements), len(res.Failures), res.WallS, res.Extra["sweep"])
+	for _, d := range res.Disagreements {
+		fmt.Printf("DISAGREE %s: %s impl=%s model=%s\n", d.File, d.Op, d.Impl, d.Model)
+	}
+	for _, f := range res.Failures {
+		fmt.Printf("MONITOR-FAIL finding=%q %s\n", f.Finding, f.Msg)
+	}
+	if len(res.Disagreements) > 0 || len(res.Failures) > 0 {
+		return 1
+	}
+	return 0
 }
 
 func cmdCodec(args []string) int {
